@@ -11,6 +11,9 @@ CONSTANTS
   Tmax,        \* last block time
   Jump,        \* a block advances time by 1..Jump ticks
   MaxAuc,      \* number of auctions that may be created
+  CreateUntil, \* creation is offered while now <= CreateUntil
+  Dur,         \* an auction's first end time is start + Dur (Dur - 1 for the short templates)
+  StartOffsets,\* start time of a new auction = now + one of these (0: created already open)
   Templates,   \* subset of template names offered to creation
   Bidders,     \* users that place bids
   Prices,      \* bid prices offered (numerators over D)
@@ -23,8 +26,9 @@ CONSTANTS
   WithGenesis  \* also offer genesis round trips
 
 Half == D \div 2
-Sched2 == <<[t |-> 5, w |-> Half], [t |-> 6, w |-> D - Half]>>
-Sched3 == <<[t |-> 4, w |-> D \div 4], [t |-> 5, w |-> D \div 4], [t |-> 7, w |-> D - 2 * (D \div 4)]>>
+(* creation templates; all times are relative to the block time `now' at which the message is sent *)
+Sched2(e) == <<[t |-> e + 2, w |-> Half], [t |-> e + 3, w |-> D - Half]>>
+Sched3(e) == <<[t |-> e + 1, w |-> D \div 4], [t |-> e + 2, w |-> D \div 4], [t |-> e + 4, w |-> D - 2 * (D \div 4)]>>
 
 Fixed(by, price, amt, start, end, sched) ==
   [a |-> "CreateFixed", by |-> by, price |-> price, sellDenom |-> "dA", sellAmt |-> amt, payDenom |-> "dB",
@@ -34,25 +38,38 @@ Batch(by, price, minPrice, amt, start, end, sched, maxExt, rate) ==
    payDenom |-> "dB", start |-> start, end |-> end, sched |-> sched, maxExt |-> maxExt, rate |-> rate]
 
 A1 == UserSeq[1]
-Template(n) ==
-  CASE n = "F0"  -> Fixed(A1, D, 10, 1, 3, <<>>)
-    [] n = "F1"  -> Fixed(A1, 3 * Half, 10, 1, 3, Sched2)          \* price 1.5: rounding on both denominations
-    [] n = "Fl"  -> Fixed(A1, D, 10, 2, 4, Sched3)
-    [] n = "B0"  -> Batch(A1, D, Half, 10, 1, 3, <<>>, 0, Half)
-    [] n = "B1"  -> Batch(A1, D, Half, 10, 1, 3, Sched2, 1, Half)
-    [] n = "B2"  -> Batch(A1, D, Half, 7, 1, 2, <<>>, 2, D)
-    [] n = "Bl"  -> Batch(A1, D, Half, 10, 2, 3, Sched3, 1, 1)
+Template(n, now, ds) ==
+  LET ts == now + ds
+      e2 == ts + Dur
+      e1 == ts + Dur - 1
+  IN
+  CASE n = "F0"  -> Fixed(A1, D, 10, ts, e2, <<>>)
+    [] n = "F1"  -> Fixed(A1, 3 * Half, 10, ts, e2, Sched2(e2))     \* price 1.5: rounding on both denominations
+    [] n = "F2"  -> Fixed(A1, D + 1, 7, ts, e1, <<[t |-> e1 + 1, w |-> D]>>)
+    [] n = "Fl"  -> Fixed(A1, D, 10, ts, e2, Sched3(e2))
+    [] n = "FB"  -> [Fixed(UserSeq[2], D, 6, ts, e2, <<>>) EXCEPT !.sellDenom = "dB", !.payDenom = "dA"]
+    [] n = "B0"  -> Batch(A1, D, Half, 10, ts, e2, <<>>, 0, Half)
+    [] n = "B1"  -> Batch(A1, D, Half, 10, ts, e2, Sched2(e2 + 1), 1, Half)
+    [] n = "B2"  -> Batch(A1, D, Half, 7, ts, e1, <<>>, 2, D)
+    [] n = "B3"  -> Batch(A1, D, 1, 5, ts, e1, Sched3(e1 + 3), 3, 1)
+    [] n = "Bl"  -> Batch(A1, D, Half, 10, ts, e1, Sched3(e1 + 1), 1, 1)
+    [] n = "BB"  -> [Batch(UserSeq[2], D, Half, 8, ts, e2, <<>>, 1, Half) EXCEPT !.sellDenom = "dB", !.payDenom = "dA"]
 
-BadCreates ==
-  { [Template("F0") EXCEPT !.by = "bad"], [Template("F0") EXCEPT !.price = 0],
-    [Template("F0") EXCEPT !.sellAmt = 0], [Template("F0") EXCEPT !.payDenom = "dA"],
-    [Template("F0") EXCEPT !.payDenom = "bad"], [Template("F0") EXCEPT !.end = 1],
-    [Template("F0") EXCEPT !.sched = <<[t |-> 3, w |-> D]>>],
-    [Template("F0") EXCEPT !.sched = <<[t |-> 5, w |-> Half]>>],
-    [Template("F0") EXCEPT !.sched = <<[t |-> 6, w |-> Half], [t |-> 5, w |-> D - Half]>>],
-    [Template("F0") EXCEPT !.sellAmt = 1000000],
-    [Template("B0") EXCEPT !.minPrice = 0], [Template("B0") EXCEPT !.rate = 0],
-    [Template("B0") EXCEPT !.maxExt = 31], [Template("B0") EXCEPT !.sellDenom = "bad"] }
+T0(n) == Template(n, 1, 1)
+BadCreates(now) ==
+  LET F == Template("F0", now, 1)
+      B == Template("B0", now, 1)
+  IN
+  { [F EXCEPT !.by = "bad"], [F EXCEPT !.price = 0],
+    [F EXCEPT !.sellAmt = 0], [F EXCEPT !.payDenom = "dA"],
+    [F EXCEPT !.payDenom = "bad"], [F EXCEPT !.end = F.start], [F EXCEPT !.end = now - 1, !.start = now - 2],
+    [F EXCEPT !.sched = <<[t |-> F.end, w |-> D]>>],
+    [F EXCEPT !.sched = <<[t |-> F.end + 1, w |-> Half]>>],
+    [F EXCEPT !.sched = <<[t |-> F.end + 2, w |-> Half], [t |-> F.end + 1, w |-> D - Half]>>],
+    [F EXCEPT !.sched = <<[t |-> F.end + 1, w |-> 0], [t |-> F.end + 2, w |-> D]>>],
+    [F EXCEPT !.sellAmt = 1000000],
+    [B EXCEPT !.minPrice = 0], [B EXCEPT !.rate = 0],
+    [B EXCEPT !.maxExt = 31], [B EXCEPT !.sellDenom = "bad"] }
 
 Ids(s) == 0..(Len(s.auctions) - 1)
 
@@ -71,7 +88,7 @@ GoodBids(s) ==
                    dn \in Denoms, n \in Amts }
           ELSE {} : id \in Ids(s) }
 
-ValidDenomBids(s) == {m \in GoodBids(s) : m.denom \in BidDenoms(s, m.id, m.type)}
+ValidDenomBids(s) == {m \in GoodBids(s) : m.denom \in BidDenoms(s, m.id, m.type) /\ s.allowed[m.id + 1][m.by] > 0}
 
 OddBids(s) ==
   UNION { { [a |-> "Bid", by |-> UserSeq[2], id |-> id, type |-> "F", price |-> D, denom |-> "dB", amt |-> 1],
@@ -102,8 +119,10 @@ OddMods(s) ==
               dn \in {"dA", "dB"}, n \in {0, 1, 3} }
           : id \in Ids(s) }
 
+BidderSeq == SelectSeq(UserSeq, LAMBDA u : u \in Bidders)
 Allow(s) ==
   UNION { { [a |-> "AddAllowed", id |-> id, entries |-> <<[u |-> u, cap |-> c]>>] : u \in Bidders, c \in CapSet }
+          \cup { [a |-> "AddAllowed", id |-> id, entries |-> [k \in 1..Len(BidderSeq) |-> [u |-> BidderSeq[k], cap |-> c]]] : c \in CapSet }
           \cup { [a |-> "UpdateAllowed", id |-> id, u |-> u, cap |-> c] : u \in Bidders, c \in CapSet }
           : id \in {i \in Ids(s) : ~Terminal(Auc(s, i).status)} }
 
@@ -132,30 +151,46 @@ Donations(s, g) ==
            e \in {EscName(k, i) : k \in {"sell", "pay", "vest"}, i \in 0..(MaxAuc - 1)}, d \in {"dA", "dB"} }
 
 Blocks(s) ==
-  IF s.now >= Tmax THEN {}
+  IF s.now >= Tmax \/ (Len(s.auctions) = 0 /\ s.now >= 1) THEN {}
   ELSE { [a |-> "Block", t |-> t, fault |-> 0] : t \in (s.now + 1)..Min(s.now + Jump, Tmax) }
 
 Creates(s) ==
-  IF Len(s.auctions) >= MaxAuc THEN {}
-  ELSE { Template(n) : n \in Templates } \cup (IF WithInvalid THEN BadCreates ELSE {})
+  IF Len(s.auctions) >= MaxAuc \/ s.now > CreateUntil THEN {}
+  ELSE { Template(n, s.now, ds) : n \in Templates, ds \in StartOffsets }
+
+GoodCancels(s) == { [a |-> "Cancel", by |-> Auc(s, i).auctioneer, id |-> i] : i \in {j \in Ids(s) : Auc(s, j).status = "StandBy"} }
+OddCancels(s) == { [a |-> "Cancel", by |-> u, id |-> id] : u \in {UserSeq[1], UserSeq[2], "bad"}, id \in Ids(s) \cup {Len(s.auctions)} } \ GoodCancels(s)
 
 MCInputs(kind, s, g) ==
   CASE kind = "CreateFixed" -> {m \in Creates(s) : m.a = "CreateFixed"}
     [] kind = "CreateBatch" -> {m \in Creates(s) : m.a = "CreateBatch"}
     [] kind = "Block" -> Blocks(s)
-    [] kind = "Bid" -> ValidDenomBids(s) \cup (IF WithInvalid THEN OddBids(s) \cup (GoodBids(s) \ ValidDenomBids(s)) ELSE {})
-    [] kind = "Modify" -> Mods(s) \cup (IF WithInvalid THEN OddMods(s) ELSE {})
-    [] kind = "AddAllowed" -> {m \in Allow(s) \cup (IF WithInvalid THEN OddAllow(s) ELSE {}) : m.a = "AddAllowed"}
-    [] kind = "UpdateAllowed" -> {m \in Allow(s) \cup (IF WithInvalid THEN OddAllow(s) ELSE {}) : m.a = "UpdateAllowed"}
+    [] kind = "Bid" -> ValidDenomBids(s)
+    [] kind = "Modify" -> Mods(s)
+    [] kind = "AddAllowed" -> {m \in Allow(s) : m.a = "AddAllowed"}
+    [] kind = "UpdateAllowed" -> {m \in Allow(s) : m.a = "UpdateAllowed"}
     [] kind = "MsgAddAllowed" -> IF WithInvalid THEN {m \in OddAllow(s) : m.a = "MsgAddAllowed"} ELSE {}
-    [] kind = "Cancel" -> Cancels(s)
+    [] kind = "Cancel" -> GoodCancels(s)
     [] kind = "Donate" -> IF MaxDon > 0 THEN Donations(s, g) ELSE {}
     [] kind = "Genesis" -> IF WithGenesis THEN {[a |-> "Genesis"]} ELSE {}
     [] kind = "UpdateParams" -> {}
+    [] kind = "OddCreate" -> IF WithInvalid /\ Len(s.auctions) < MaxAuc THEN BadCreates(s.now) ELSE {}
+    [] kind = "OddBid" -> IF WithInvalid THEN OddBids(s) \cup (GoodBids(s) \ ValidDenomBids(s)) ELSE {}
+    [] kind = "OddModify" -> IF WithInvalid THEN OddMods(s) ELSE {}
+    [] kind = "OddAllow" -> IF WithInvalid THEN {m \in OddAllow(s) : m.a # "MsgAddAllowed"} ELSE {}
+    [] kind = "OddCancel" -> IF WithInvalid THEN OddCancels(s) ELSE {}
 
+W(kind, n) == {<<kind, i>> : i \in 1..n}
+BagDefault == W("CreateFixed", 2) \cup W("CreateBatch", 3) \cup W("Cancel", 1) \cup W("AddAllowed", 4)
+              \cup W("UpdateAllowed", 1) \cup W("MsgAddAllowed", 1) \cup W("Bid", 10) \cup W("Modify", 4)
+              \cup W("Block", 9) \cup W("Donate", 1) \cup W("Genesis", 1)
+              \cup W("OddCreate", 1) \cup W("OddBid", 2) \cup W("OddModify", 1) \cup W("OddAllow", 1) \cup W("OddCancel", 1)
 Users2 == <<"u1", "u2">>
 Users3 == <<"u1", "u2", "u3">>
 Users4 == <<"u1", "u2", "u3", "u4">>
+Users6 == <<"u1", "u2", "u3", "u4", "u5", "u6">>
+BagBids == W("CreateFixed", 2) \cup W("CreateBatch", 3) \cup W("AddAllowed", 4) \cup W("UpdateAllowed", 1)
+           \cup W("Bid", 16) \cup W("Modify", 3) \cup W("Block", 6) \cup W("Donate", 1)
 Rich == [dA |-> 40, dB |-> 40, dF |-> 10]
 MCBal0 == [u \in Users |-> Rich]
 MCParams0 == [createFee |-> [d |-> "dF", n |-> 2], bidFee |-> [d |-> "dB", n |-> 1], extPeriod |-> 1]
